@@ -57,7 +57,8 @@ fn with_scenario(specs: Vec<String>, scenario: &str) -> Vec<CaseDesc> {
 pub fn cases(prop: &str, tier: Tier, seed: u64) -> Vec<CaseDesc> {
     let q = tier == Tier::Quick;
     let mut out = Vec::new();
-    let g = |profile: &str, n_quick: u64, n_thorough: u64| -> Vec<String> { crate::gen::gen_specs(profile, seed, if q { n_quick } else { n_thorough }) };
+    // thorough: the generated part of every workload is 4x the figure given below
+    let g = |profile: &str, n_quick: u64, n_thorough: u64| -> Vec<String> { crate::gen::gen_specs(profile, seed, if q { n_quick } else { n_thorough * 4 }) };
     match prop {
         "C02" => {
             out.extend(with_scenario(crate::census::op_census_specs(), "rt:emit,gc"));
